@@ -61,6 +61,15 @@ Theorem C18_single_edit : forall a b b',
 Proof. exact c18_single_edit. Qed.
 Print Assumptions C18_single_edit.
 
+(** The same when the edit is made in the first argument (whose shape drives the
+    code's traversal). *)
+Theorem C18_single_edit_left : forall a a' b,
+  tree_wf (erase a) -> tree_wf (erase a') -> tree_wf (erase b) ->
+  is_equal a b = true -> one_edit (erase a) (erase a') ->
+  is_equal a' b = false /\ is_equal b a' = false.
+Proof. exact c18_single_edit_left. Qed.
+Print Assumptions C18_single_edit_left.
+
 (** Transitivity: equal answers chain, so on trees that share no node object is_equal is
     an equivalence relation (with [C18_sym] and [C18_refl_copy]). *)
 Theorem C18_trans : forall a b c,
